@@ -34,11 +34,11 @@ m("C02-d", "C02", "libwallet/src/api_impl/foreign.rs", "if let Some(args) = cont
 m("C02-e", "C02", "libwallet/src/slate.rs", "\t\tself.verify_part_sigs(secp)?;\n\n\t\tlet part_sigs = self.part_sigs();", "\t\tlet part_sigs = self.part_sigs();", "C02.R1")
 # ---- C03
 m("C03-a", "C03", "libwallet/src/internal/selection.rs", "\t\t\tif coin.status == OutputStatus::Locked\n\t\t\t\t|| coin.status == OutputStatus::Spent\n", "\t\t\tif coin.status == OutputStatus::Spent\n", "C03.R2")
-m("C03-b", "C03", "libwallet/src/api_impl/foreign.rs", "\t\tif t.tx_type == TxLogEntryType::TxReceived {\n\t\t\treturn Err(Error::TransactionAlreadyReceived(ret_slate.id.to_string()));\n\t\t}", "\t\tif t.tx_type == TxLogEntryType::TxReceivedCancelled {\n\t\t\treturn Err(Error::TransactionAlreadyReceived(ret_slate.id.to_string()));\n\t\t}", "C03.R3")
+m("C03-b", "C03", "libwallet/src/api_impl/foreign.rs", "\t\tif t.tx_type == TxLogEntryType::TxReceived || t.tx_type == TxLogEntryType::TxReverted {", "\t\tif t.tx_type == TxLogEntryType::TxReceivedCancelled || t.tx_type == TxLogEntryType::TxReverted {", "C03.R3")
 m("C03-c", "C03", "libwallet/src/types.rs", "\t\tif [OutputStatus::Spent, OutputStatus::Locked].contains(&self.status)\n\t\t\t|| self.status == OutputStatus::Unconfirmed && self.is_coinbase\n\t\t\t|| self.lock_height > current_height\n\t\t{\n\t\t\tfalse\n\t\t} else {\n\t\t\t(self.status == OutputStatus::Unspent\n", "\t\tif [OutputStatus::Spent, OutputStatus::Reverted].contains(&self.status)\n\t\t\t|| self.status == OutputStatus::Unconfirmed && self.is_coinbase\n\t\t\t|| self.lock_height > current_height\n\t\t{\n\t\t\tfalse\n\t\t} else {\n\t\t\t((self.status == OutputStatus::Unspent || self.status == OutputStatus::Locked)\n", "C03.R4")
 # ---- C04
-m("C04-a", "C04", "libwallet/src/internal/updater.rs", "OutputStatus::Reverted => reverted_total += out.value,", "OutputStatus::Reverted => {\n\t\t\t\treverted_total += 0;\n\t\t\t\tunspent_total += out.value\n\t\t\t}", "C04.R2")
-m("C04-b", "C04", "libwallet/src/internal/updater.rs", "\t\ttotal: unspent_total + unconfirmed_total + immature_total,", "\t\ttotal: unspent_total + unconfirmed_total + immature_total + locked_total,", "C04.R3")
+m("C04-a", "C04", "libwallet/src/internal/updater.rs", "OutputStatus::Reverted => reverted_total = reverted_total.saturating_add(out.value),", "OutputStatus::Reverted => {\n\t\t\t\treverted_total = reverted_total.saturating_add(0);\n\t\t\t\tunspent_total = unspent_total.saturating_add(out.value)\n\t\t\t}", "C04.R2")
+m("C04-b", "C04", "libwallet/src/internal/updater.rs", "\t\ttotal: unspent_total\n\t\t\t.saturating_add(unconfirmed_total)\n\t\t\t.saturating_add(immature_total),", "\t\ttotal: unspent_total\n\t\t\t.saturating_add(unconfirmed_total)\n\t\t\t.saturating_add(immature_total)\n\t\t\t.saturating_add(locked_total),", "C04.R3")
 m("C04-c", "C04", "libwallet/src/internal/updater.rs", ".filter(|x| x.root_key_id == *parent_key_id && x.status != OutputStatus::Spent)", ".filter(|x| x.status != OutputStatus::Spent)", "C04.R1")
 m("C04-d", "C04", "libwallet/src/internal/updater.rs", "\t\tif height < last_confirmed_height {", "\t\tif height + 1000 < last_confirmed_height {", "C04.R4")
 # ---- C05
@@ -183,7 +183,7 @@ m("C11-h", "C11", "libwallet/src/api_impl/owner.rs", "\tif sender_pubkey.verify(
 m("C11-j", "C11", "libwallet/src/api_impl/owner.rs", "\tlet msg = tx::payment_proof_message(proof.amount, &proof.excess, sender_pubkey)?;", "\tlet msg = tx::payment_proof_message(proof.amount, &proof.excess, proof.recipient_address.pub_key)?;", "C11.R4")
 
 # ---- from the fourth wave
-m("C17-f", "C17", "libwallet/src/api_impl/owner.rs", "\t\t\tif tip.0 >= e {\n\t\t\t\twallet_lock!(wallet_inst, w);\n\t\t\t\tlet parent_key_id = w.parent_key_id();\n\t\t\t\ttx::cancel_tx(&mut **w, keychain_mask, &parent_key_id, Some(tx.id), None)?;\n\t\t\t}", "\t\t\tif tip.0 >= e {\n\t\t\t\twallet_lock!(wallet_inst, w);\n\t\t\t\tlet parent_key_id = w.parent_key_id();\n\t\t\t\ttx::cancel_tx(&mut **w, keychain_mask, &parent_key_id, Some(tx.id), None)?;\n\t\t\t} else {\n\t\t\t\tbreak;\n\t\t\t}", "C17.R2")
+m("C17-f", "C17", "libwallet/src/api_impl/owner.rs", "\t\t\t\t\t&tx.parent_key_id,\n\t\t\t\t\tSome(tx.id),\n\t\t\t\t\tNone,\n\t\t\t\t)?;\n\t\t\t}\n", "\t\t\t\t\t&tx.parent_key_id,\n\t\t\t\t\tSome(tx.id),\n\t\t\t\t\tNone,\n\t\t\t\t)?;\n\t\t\t} else {\n\t\t\t\tbreak;\n\t\t\t}\n", "C17.R2")
 m("C18-g", "C18", "libwallet/src/internal/updater.rs", "\t\tif height < last_confirmed_height {", "\t\tif height <= last_confirmed_height {", "C18.R5")
 m("C10-g", "C10", "libwallet/src/slatepack/types.rs", "\t\treader.read_to_end(&mut decrypted)?;", "\t\tlet _ = reader.read_to_end(&mut decrypted);", "C10.R3")
 m("C19-f", "C19", "libwallet/src/internal/updater.rs", "\t\t\tRetrieveTxQuerySortOrder::Desc => return_txs.reverse(),", "\t\t\tRetrieveTxQuerySortOrder::Desc => {}", "C19.R1")
